@@ -393,6 +393,18 @@ pub fn check_sub(r: &mut Recorder, c: &Value) {
                                 r.dis(&["C12", "C15"], concat!($name, "-equals-foreign-text"), det(&s, json!(txt), json!(o)));
                             }
                         }
+                        // neighbours of the text just accepted (MC_Subtags.NeighbourRejected): an extra space, NUL or separator
+                        // at either end is never a subtag -- asked straight after the accepted one, in case the library remembers it
+                        for x in [b' ', 0u8, b'-', b'_'] {
+                            let mut n1 = s.clone(); n1.push(x);
+                            let mut n2 = vec![x]; n2.extend_from_slice(&s);
+                            let mut n3 = s.clone(); n3.extend_from_slice(&[x, x, x]);
+                            for nb in [n1, n2, n3] {
+                                if let Ok(Ok(w)) = guard(|| <$ty>::from_bytes(&nb)) {
+                                    r.dis(&["C15"], concat!($name, "-accepts-a-neighbour-of-the-subtag-just-accepted"), det(&nb, json!("err"), json!(w.as_str())));
+                                }
+                            }
+                        }
                         // re-parse of the canonical text (C05) and FromStr
                         match guard(|| <$ty>::from_str(&txt)) {
                             Ok(Ok(v2)) if v2 == v => {}
